@@ -19,6 +19,7 @@
      interp <func> <arg>       MIR_interp
      gen <func>                MIR_gen
      call <func> <arg>         call through the item's address (thunk)
+     fill                      publish code ending exactly at the end of the current code page
      finish                    MIR_finish
    Every callable function has the C type  long f (long).  Results go to a->out ("R ..."). */
 #ifndef C17_API_H
@@ -320,6 +321,16 @@ static int api_exec (struct api *a, const char *line) {
     } else {
       long r = ((long (*) (long)) f->addr) (v);
       api_outf (a, "R %s %ld = %ld", s1, v, r);
+    }
+  } else if (strcmp (cmd, "fill") == 0) {
+    /* publish a block of `ret` instructions that ends exactly at the end of the current code page (for the
+       usual one-page holder: exactly at the holder's bound) */
+    static const uint8_t rets[4096] = {0};
+    uint8_t *p = _MIR_get_new_code_addr (a->ctx, 1);
+    size_t room = p == NULL ? 0 : 4096 - ((size_t) p & 4095);
+    if (room != 0 && room <= 4096) {
+      uint8_t *q = _MIR_publish_code (a->ctx, rets, room);
+      api_outf (a, "R fill %lu %s", (unsigned long) room, q == p ? "at-free" : "moved");
     }
   } else if (strcmp (cmd, "finish") == 0) {
     MIR_finish (a->ctx);
